@@ -124,14 +124,16 @@ impl Manifest {
             return Ok(vec![]);
         };
 
-        let mut data = String::new();
+        // The log is read as bytes: a torn append may end inside a multi-byte character, which is
+        // a partially written record (handled below), not an unreadable file.
+        let mut data = Vec::new();
         file.seek(SeekFrom::Start(0)).await?;
         let mut reader = BufReader::new(&mut *file);
 
         // TODO: don't read all to memory
-        reader.read_to_string(&mut data).await?;
+        reader.read_to_end(&mut data).await?;
 
-        let mut stream = Deserializer::from_str(&data).into_iter::<ManifestOperation>();
+        let mut stream = Deserializer::from_slice(&data).into_iter::<ManifestOperation>();
 
         let mut ops = vec![];
         let mut buffered_ops = vec![];
